@@ -104,7 +104,7 @@ def oracle(case):
     exact = [a for a in args if type(v) == a]
     if op == "|":
         if exact:
-            return None if (r[0] == "ok" and (r[1] is v or r[1] == v)) else "a value of an argument's exact class is not returned unchanged: %r -> %r" % (v, r)
+            return None if (r[0] == "ok" and (r[1] is v or (r[1] == v and type(r[1]) is type(v)))) else "a value of an argument's exact class is not returned unchanged: %r -> %r" % (v, r)
         # an argument "accepts" when it does so under the given options or under one of the stricter option sets the
         # union tries first (strict, no-loss): with a nested ^ argument stricter options can accept what lenient ones reject
         if n_ok == 0:
@@ -116,7 +116,7 @@ def oracle(case):
         return None
     if op == "^":
         if exact:
-            return None if (r[0] == "ok" and (r[1] is v or r[1] == v)) else "exact-class value not returned unchanged by ^"
+            return None if (r[0] == "ok" and (r[1] is v or (r[1] == v and type(r[1]) is type(v)))) else "exact-class value not returned unchanged by ^"
         if (r[0] == "ok") != (n_ok == 1):
             return "xor %s although %d argument(s) accept the given input" % ("accepts" if r[0] == "ok" else "rejects", n_ok)
         for p in permutations_of(case):
@@ -237,6 +237,7 @@ def operator_order_case(i_seed):
     OPS = {"&": operator.and_, "|": operator.or_, "^": operator.xor}
 
     used = []
+    wrong = []
 
     def sub():
         a = rng.choice([x for x in aware if x not in used])
@@ -246,9 +247,13 @@ def operator_order_case(i_seed):
         b = rng.choice([x for x in aware + plain if x not in used])
         used.append(b)
         o = rng.choice("&|^")
-        if rng.random() < 0.5 or b in plain:
-            return OPS[o](a, b), [a, b]
-        return OPS[o](b, a), [b, a]
+        if rng.random() < 0.5:
+            t2, l2 = OPS[o](a, b), [a, b]
+        else:
+            t2, l2 = OPS[o](b, a), [b, a]    # a plain type or generic on the left: the right operand's reflected operator builds it
+        if getattr(t2, "combinator", None) != o:
+            wrong.append("%s %s %s was built as %r whose combinator is %r" % (names[id(l2[0])], o, names[id(l2[1])], t2, getattr(t2, "combinator", None)))
+        return t2, l2
     try:
         L, ll = sub()
         if rng.random() < 0.3:
@@ -276,6 +281,12 @@ def operator_order_case(i_seed):
             for a in typing.get_args(t):
                 out += leaves(a, depth + 1)
         return out
+    if wrong:
+        return ("order", wrong[0])
+    comb = getattr(T, "combinator", None)
+    if comb != op:
+        return ("order", "written with %s, (%s) %s (%s) was built as %r whose combinator is %r" % (
+            op, " ".join(names[id(x)] for x in ll), op, " ".join(names[id(x)] for x in rl), T, comb))
     want = [names[id(x)] for x in ll + rl]
     got = leaves(T)
     if got != want:
